@@ -43,9 +43,16 @@ fn main() {
     };
     panic::set_hook(Box::new(|_| {}));
     let mut first: Option<(i32, String)> = None;
-    for t in 0..=tries {
+    // candidates: the solver's input; then (if tries > 0) every single word replaced by a
+    // boundary value; then seeded random 1..3-word mutations
+    const INTERESTING: [u64; 12] = [0, 1, 2, 3, 4, 5, 8, 16, 32, 64, u64::MAX, 1 << 63];
+    let sweep = if tries > 0 { len * INTERESTING.len() } else { 0 };
+    for t in 0..=(tries as usize + sweep) {
         let mut b = bytes.clone();
-        if t > 0 && len > 0 {
+        if t > 0 && t <= sweep {
+            let k = t - 1;
+            b[k / INTERESTING.len()] = INTERESTING[k % INTERESTING.len()];
+        } else if t > sweep && len > 0 {
             let k = 1 + (next() % 3) as usize;
             for _ in 0..k {
                 let pos = (next() % len as u64) as usize;
